@@ -825,3 +825,40 @@ def _returns_without(k, blocks):
 def direct_callers_in_lib(P, pred):
     """[(fn, bb, t)] of the non-test call sites whose callee satisfies pred(name)"""
     return [(f, b, t) for f in P.lib_fns() if not f.in_tests() for b, t in f.calls() if pred(cname(t))]
+
+
+def fn_mentions_field(P, fn, owner_suffix, field, depth=0):
+    """some place in fn's body (or in a closure it builds) projects <owner>.<field>"""
+    def places(j):
+        if isinstance(j, dict):
+            if "proj" in j and "l" in j:
+                yield j
+            for v in j.values():
+                yield from places(v)
+        elif isinstance(j, list):
+            for v in j:
+                yield from places(v)
+    for b in range(fn.n):
+        for s in fn.stmts(b):
+            for p in places(s):
+                if place_mentions_field(p, owner_suffix, field):
+                    return True
+        for p in places(fn.term(b)):
+            if place_mentions_field(p, owner_suffix, field):
+                return True
+    if depth < 3:
+        for c in P.closures_of.get(fn.name, []):
+            if fn_mentions_field(P, P.fns[c], owner_suffix, field, depth + 1):
+                return True
+    return False
+
+
+def expr_or_closure_mentions_field(P, e, field, owner_suffix):
+    """the expression reads <owner>.<field> itself or through a closure it applies (a closure that captures `self` as a
+    whole shows the field only in its own body)"""
+    if expr_mentions_field(e, field, owner_suffix):
+        return True
+    for x in walk(e):
+        if x[0] == "closure" and x[1] in P.fns and fn_mentions_field(P, P.fns[x[1]], owner_suffix, field):
+            return True
+    return False
